@@ -8,6 +8,7 @@ REG = Registry('C14')
 REG.assumptions += [
     'transcendental functions are uninterpreted with sound axioms (sqrt: s>=0, s^2=x; arcsin/arccos: complement, ranges, the exact values at 0, 1/2, sqrt(2)/2, sqrt(3)/2, 1; exp: positive, monotone)',
     'driving force, interfacial energy, molar volume, temperature: arbitrary positive reals; site-type ratio 0 <= k < k_max',
+    'impingement-rate contract: the thermodynamics object returns positive tracer diffusivities / a positive impingement factor (uninterpreted functions of the queried point) and interfacial compositions strictly inside (0,1) that differ between the phases; area factor of the site > 0',
 ]
 REG.undecided += [
     'sign of the edge / corner geometric factors and monotone decrease of the volume factor over the whole admissible k range: transcendental inequalities outside NRA '
